@@ -21,7 +21,7 @@ THOROUGH_SCALE = 4        # random budgets of the thorough tier are multiplied b
 REQUIRE = {'docs_srt': 20, 'docs_webvtt': 20, 'docs_dfxp': 20, 'docs_sami': 20, 'docs_microdvd': 20,
            'lines_compared': 2000, 'lines_with_reference': 200, 'lines_with_inline_tag': 100,
            'lines_with_unknown_tag': 10, 'lines_with_voice': 5, 'lines_with_double_escape': 20,
-           'lines_with_leading_layout_whitespace': 10}
+           'lines_with_leading_layout_whitespace': 10, 'reads_by_a_reader_object_used_before': 100}
 
 
 def cases(ctx):
@@ -29,7 +29,8 @@ def cases(ctx):
     fmts = sorted(docs.GENERATORS)
     for i in range(ctx.budget(9000, 300000)):
         fmt = fmts[i % len(fmts)]
-        yield docs.generate(fmt, rng, f'R{ctx.shard}.{i}', ctx, text=inline.rich_lines)
+        yield docs.with_prior(docs.generate(fmt, rng, f'R{ctx.shard}.{i}', ctx, text=inline.rich_lines), rng,
+                              f'R{ctx.shard}.{i}', ctx, text=inline.rich_lines)
 
 
 def _segs_of(case):
@@ -74,7 +75,7 @@ def check(case, ctx):
     ctx.count('docs_' + fmt)
     Reader = getattr(pycaption, docs.READERS[fmt])
     try:
-        cs = Reader(**case['reader_kwargs']).read(case['doc'], **case['read_kwargs'])
+        cs = docs.reader_for(case, Reader, ctx).read(case['doc'], **case['read_kwargs'])
     except Exception as e:
         return [{'what': 'reader raised on a well-formed document', 'format': fmt, 'error': repr(e)[:400]}]
     fails = []
